@@ -223,6 +223,14 @@ def check(ctx):
     ctx.inst('R6', add, 'container-order', okl, 'fields %s are filled with %s' % (fields, got))
     appended = [c for c in walk_own(add.node) if method_call(c, 'append') and norm(c.func.value) == 'self.cb']
     ctx.inst('R6', add, 'append-order', len(appended) == 1, 'registration must append (arrival order = registration order)')
+    port_registration_rules(ctx, 'R6')
+
+
+def port_registration_rules(ctx, rule='R6'):
+    """add_port_callback / remove_port_callback: both address the entry (cb, port, channel 0, port mask 0xFF, channel mask 0x00), whether
+    they delegate to the header variants (positional or keyword arguments, defaults of the callee filled in) or drop the entry themselves.
+    Shared with C03 (a finished TocFetcher must really be unregistered)."""
+    m = ctx.model
     addp = m.func(CF, '_IncomingPacketHandler.add_port_callback')
     rmp = m.func(CF, '_IncomingPacketHandler.remove_port_callback')
     for f, callee in ((addp, 'add_header_callback'), (rmp, 'remove_header_callback')):
@@ -231,13 +239,26 @@ def check(ctx):
             # own removal instead of delegation: it must drop exactly the registration add_port_callback made (all five fields)
             wantp = {'port': 'port', 'callback': 'cb', 'channel': 0, 'port_mask': 0xff, 'channel_mask': 0}
             for key, keys in removal_sites(rmp):
-                ctx.inst('R6', f, 'port-only-masks', all(keys.get(k) == v for k, v in wantp.items()),
+                ctx.inst(rule, f, 'port-only-masks', all(keys.get(k) == v for k, v in wantp.items()),
                          'port-only unregistration must drop only the entry with channel 0 and masks (0xFF, 0x00) for this port and callback; equalities required of a dropped entry: %s' % keys)
             continue
         ctx.need(len(cs) == 1, '%s does not delegate to %s' % (f.qualname, callee))
-        args = [norm(x) for x in cs[0].args[:2]] + [fold_in(f, x) for x in cs[0].args[2:]]
-        ctx.inst('R6', f, 'port-only-masks', args == ['cb', 'port', 0, 0xff, 0x0],
-                 'port-only (un)registration must use channel 0, masks (0xFF, 0x00); found %s' % (args,))
+        tgt = m.func(CF, '_IncomingPacketHandler.' + callee)
+        params = tgt.params[1:]
+        dflt = tgt.defaults()
+        bound = {}
+        for p_, a_ in zip(params, cs[0].args):
+            bound[p_] = a_
+        for k_ in cs[0].keywords:
+            if k_.arg:
+                bound[k_.arg] = k_.value
+        vals = {}
+        for p_ in params:
+            v_ = bound.get(p_, dflt.get(p_))
+            vals[p_] = None if v_ is None else (norm(v_) if isinstance(v_, ast.Name) else fold_in(f if p_ in bound else tgt, v_))
+        want = {'cb': 'cb', 'port': 'port', 'channel': 0, 'port_mask': 0xff, 'channel_mask': 0}
+        ctx.inst(rule, f, 'port-only-masks', vals == want,
+                 'port-only (un)registration must use channel 0, masks (0xFF, 0x00) - defaults of %s included; effective arguments %s' % (callee, vals))
 
 
 def mentions(node, var):
